@@ -15,7 +15,6 @@ def gen_desc(rng, auto=False, to_df=False, max_out=3):
         dims.append([] if to_df else rng.choice([[], [], ['t'], ['t', 'w'], ['w']]))
     used = sorted({d for ds in dims for d in ds})
     via_const = [d for d in used if rng.random() < 0.4]
-    if auto: via_const = []
     desc = {'names': names, 'dims': dims,
             'var_coords': {} if auto else {d: INTERNAL[d] for d in used if d not in via_const},
             'constants': {d: INTERNAL[d] for d in via_const},
@@ -202,6 +201,8 @@ def oracle_ds(ds, sw, desc, requested=None):
         if r in ds.attrs or r in ds.coords or r in ds.data_vars: return f'resource {r} was recorded'
     for a, v in desc['attrs'].items():
         if canon(ds.attrs.get(a, '<absent>')) != canon(v): return f'attribute {a} not kept'
+    extra = set(map(str, ds.attrs)) - set(desc['attrs']) - set(desc['constants'])
+    if extra: return f'attributes {sorted(extra)} were recorded but are neither attrs nor constants of this run'
     return None
 
 
